@@ -230,7 +230,7 @@ def execute(env, case):
         # Result.columns(<int>) must keep the key and the value of that position
         colproj = []
         if not isinstance(stmt, str):
-            for i in range(len(keys)):
+            for i in sorted({0, len(keys) // 2, len(keys) - 1}):
                 try:
                     r2 = conn.execute(stmt).columns(i)
                     k2 = list(r2.keys())
